@@ -28,7 +28,8 @@ pub struct Handle(pub u32);
 //@@ type file=fe2o3-amqp-types/src/performatives/transfer.rs kind=struct name=Transfer
 //@@ end
 
-pub const FRAME_TYPE_AMQP: u8 = 0x00;
+//@@ type file=fe2o3-amqp/src/frames/mod.rs kind=const name=FRAME_TYPE_AMQP
+//@@ end
 
 // ---- bytes stand-ins -------------------------------------------------------------------------
 pub trait BufSrc: Sized {
@@ -189,7 +190,10 @@ impl FrameDecoder {
 
 
 // ---- SASL frame decoder (pre-authentication path: C19 / C15) ----
-pub const FRAME_TYPE_SASL: u8 = 0x01;
+//@@ type file=fe2o3-amqp/src/frames/mod.rs kind=const name=FRAME_TYPE_SASL
+//@@ end
+/// AMQP 1.0 part 2, 2.3.2: frame type 0x00 = AMQP, part 5, 5.3.1: 0x01 = SASL
+proof fn spec_frame_types() ensures FRAME_TYPE_AMQP == 0x00, FRAME_TYPE_SASL == 0x01 {}      // [C06.constants.frame-types] [C19.constants.frame-types] [C15.constants.frame-types]
 opaque!(SaslFrame);
 pub uninterp spec fn sasl_of(b: Seq<u8>) -> SaslFrame;
 impl SaslFrame {
